@@ -16,7 +16,7 @@ RULE = ('Well-typed expressions and predicates from the typed generator (depth <
         'small-scope shape with <= 3 operators over leaves {x, y, @A.v, 0, 1, 2} / {p, q, @A.b, True, False} are '
         'simplified by the real function; input and output are evaluated on a valuation grid. Non-trivial = simplify '
         'returned an object that is not the input (a rule fired); distinct = distinct input shape.')
-RULE_ADDED = ' Since the seeding rounds: exhaustive sum/prod/len/max/min over constant ranges with bounds -3..3 and all exclusion flags; valuations at float discontinuities are not judged.'
+RULE_ADDED = ' Since the seeding rounds: exhaustive sum/prod/len/max/min over constant ranges with bounds -3..3 and all exclusion flags; valuations at float discontinuities are not judged; comparisons of two terms built from one base by one operator with two different constants.'
 ASSUMPTIONS = [
     'the reference evaluator (DESIGN.md 4.1) is my reading of an informally documented language; where the reading '
     'is open (sets as sets or lists under len/sum/prod, int() truncation or floor) a violation needs disagreement '
@@ -245,6 +245,30 @@ def run(ctx):
                         case = S.Case(e, S.SS_THIS, {'A': S.SS_ALIAS}, 'predicate' if idx % 5 == 0 else 'expression')
                         handle(case, S.ss_envs(e), 'self:' + A.shape(e) + f'|{k}{op}{flip}', 'self-comparison')
                         ctx.count('self_comparison_terms')
+
+    # 1c'. two terms built from the same base by the same operator with two different constants (equal for some values
+    # of the base - 0, 1, -1 - although the constants differ), either operand order
+    for base in (X, V):
+        for aop in ('+', '-', '*', '/', '**'):
+            for k1 in ('0', '1', '2', '3', '0.5'):
+                for k2 in ('1', '2', '3', '-1'):
+                    if k1 == k2:
+                        continue
+                    K1 = A.num(k1)
+                    K2 = A.neg(A.num('1')) if k2 == '-1' else A.num(k2)
+                    for op in relops:
+                        idx += 1
+                        if not ctx.mine(idx):
+                            continue
+                        mirrored = idx % 3 == 0 and aop in ('+', '*')
+                        l = ('bin', aop, K1, base) if mirrored else ('bin', aop, base, K1)
+                        r = ('bin', aop, K2, base) if mirrored else ('bin', aop, base, K2)
+                        e = ('bin', op, l, r)
+                        if idx % 4 == 0:
+                            e = ('bin', gen.pick(rng, ('and', 'or')), ('bin', '>', base, A.num('5')), e)
+                        case = S.Case(e, S.SS_THIS, {'A': S.SS_ALIAS}, 'predicate' if idx % 5 == 0 else 'expression')
+                        handle(case, S.ss_envs(e), f'self2:{aop}|{k1}|{k2}|{op}|{mirrored}', 'self-comparison')
+                        ctx.count('two_constant_self_comparisons')
 
     # 1d. aggregates over constant ranges: every pair of small bounds of either sign x exclusion flags x function
     idx = 0
